@@ -53,13 +53,20 @@ Definition read_only_method (w : string) : bool :=
   contains "(*sync.Map).Load" w || contains "(reflect.Type)." w || contains "(error).Error" w ||
   contains ".Big).Float64" w || contains ".Big).Cmp" w || contains ".Big).Int64" w ||
   contains ".Big).IsFinite" w || contains ".Big).IsNaN" w || contains ".Big).String" w ||
-  contains ".Big).Signbit" w || contains ".Big).Sign" w || contains ".Big).IsInf" w.
+  contains ".Big).Signbit" w || contains ".Big).Sign" w || contains ".Big).IsInf" w ||
+  contains "(time.Time)." w ||                   (* value receiver: the caller's time is copied *)
+  contains "decimal.Context)." w.                (* value receiver: a copy of the context *)
+
+(* a number handed to the decimal package as an operand: the methods of Big store into their receiver only and
+   the methods of Context into their first argument only (the library's contract) *)
+Definition decimal_operand (w : string) : bool :=
+  starts "extarg:" w && (contains "decimal.Big)." w || (contains "decimal.Context)." w && negb (contains "#1" w))).
 
 (* a write that cannot touch anything another evaluation, parse or analysis can see *)
 Definition private_write (w : string) : bool :=
   String.eqb w "fresh" || String.eqb w "fresh[]" || String.eqb w "fresh*" || String.eqb w "local" ||
   String.eqb w "local*" || String.eqb w "map:fresh" || starts "freevar:err:" w || starts "freevar:result:" w ||
-  (starts "extcall:" w && read_only_method w).
+  (starts "extcall:" w && read_only_method w) || decimal_operand w.
 
 (* ---------- evaluation: Runner.Resolve ---------- *)
 
@@ -87,6 +94,51 @@ Definition tree_setter (n : string) : bool :=
   contains ").Add" n.
 
 Lemma eval_never_calls_tree_setters : existsb tree_setter (reachable eval_entry) = false.
+Proof. vm_compute. reflexivity. Qed.
+
+(* ---------- builtins: table entries, reached from evaluation through reflection ---------- *)
+
+(* package-level functions whose value is taken somewhere (the builtin table is filled by init) *)
+Definition builtin_entry : list string :=
+  filter (fun n => negb (contains "(" n) && negb (contains "$" n)) impl_funcrefs.
+
+(* a builtin writes nothing but objects it allocated: no package state, no captured state, and no number,
+   string, time or array handed to it *)
+Lemma builtins_footprint : forallb private_write (writes_of builtin_entry) = true.
+Proof. vm_compute. reflexivity. Qed.
+
+Lemma builtins_never_call_tree_setters : existsb tree_setter (reachable builtin_entry) = false.
+Proof. vm_compute. reflexivity. Qed.
+
+(* the environment (clock, random source, process, files, network): which functions read it directly, and how
+   many readings one call of a function takes, counted along the call tree (a call site inside a loop counts once) *)
+Definition env_sites (f : string) : list (string * nat) :=
+  match find (fun r => String.eqb (fst r) f) impl_envcalls with Some r => snd r | None => [] end.
+Definition reads_env (f : string) : bool := match env_sites f with [] => false | _ => true end.
+Definition direct_calls (f : string) : list (string * nat) :=
+  match find (fun r => String.eqb (fst r) f) impl_callsites with Some r => snd r | None => [] end.
+
+Fixpoint env_readings (fuel : nat) (f : string) : nat :=
+  match fuel with
+  | O => 1000                                   (* call tree too deep to count: never accepted below *)
+  | S k => fold_left (fun a c => a + snd c) (env_sites f) 0 +
+           fold_left (fun a c => a + snd c * env_readings k (fst c)) (direct_calls f) 0
+  end.
+
+Definition clock_builtin (f : string) : bool := String.eqb f "funNow" || String.eqb f "funToDay".
+
+(* 1. parsing, the evaluator core and field analysis reach no function that reads the environment;
+   2. no builtin but now / toDay does;
+   3. one call of now or toDay takes exactly one reading, and it is a reading of the clock (time.Now):
+      year, month and day of toDay come from one instant *)
+Definition env_discipline : bool :=
+  negb (existsb reads_env (reachable (eval_entry ++ ["ParseSourceCode"; "ResolveReferenceFields"; "ResolveReferenceFieldsNotLocal";
+                                                       "FormatDiagnostic"; "GetFileLineAndCharacterFromPosition"; "GetLineStarts"]))) &&
+  forallb (fun f => clock_builtin f || negb (existsb reads_env (reachable [f]))) builtin_entry &&
+  forallb (fun f => negb (mem f builtin_entry) || Nat.eqb (env_readings 12 f) 1) ["funNow"; "funToDay"] &&
+  forallb (fun f => forallb (fun g => forallb (fun c => String.eqb (fst c) "time.Now") (env_sites g)) (reachable [f])) ["funNow"; "funToDay"].
+
+Lemma environment_read_by_clock_builtins_once : env_discipline = true.
 Proof. vm_compute. reflexivity. Qed.
 
 (* ---------- field analysis ---------- *)
